@@ -1,6 +1,7 @@
-(* C12 -- the defect of Interval::mul_assign in the branch "both operands straddle zero": the faithful
-   model violates enclosure (witness by computation); it agrees with the fixed model whenever the
-   diagnostic [mul_diag] reports no flag loss. *)
+(* C12 -- HISTORICAL: the defect Interval::mul_assign had BEFORE commit ed6ee8d in the branch "both
+   operands straddle zero".  [mul_assign_pre_ed6ee8d] (the old code) violates enclosure (witnesses by
+   computation); it agrees with the current [mul_assign] whenever [mul_diag] reports no flag loss.
+   Nothing here is about the current code except the last theorem, which delimits the change. *)
 From Coq Require Import ZArith QArith Bool Lia Lqa.
 From PPLV Require Import Itv.Boundary Itv.Interval Itv.QCarrier Itv.Sound.
 Local Open Scope Q_scope.
@@ -13,10 +14,10 @@ Definition upper_unbounded (l : Q) (lo : bool) : ritv :=
   mkI (mkB (C := QC) l false lo) (mkB (C := QC) 0 true true).
 Definition z0 : ritv := fin 0 false 0 false.
 
-(* (-1, 2] * [-3, 1) is computed as (-6, 3): the product -6 = 2 * (-3) is lost. *)
-Lemma mul_refuted_witness :
+(* old code: (-1, 2] * [-3, 1) was computed as (-6, 3): the product -6 = 2 * (-3) is lost. *)
+Lemma mul_pre_ed6ee8d_refuted_witness :
   mem QC true 2 (fin (-1) true 2 false) /\ mem QC true (-3) (fin (-3) false 1 true) /\
-  ~ mem QC true (2 * -3) (mul_assign QC true z0 (fin (-1) true 2 false) (fin (-3) false 1 true)).
+  ~ mem QC true (2 * -3) (mul_assign_pre_ed6ee8d QC true z0 (fin (-1) true 2 false) (fin (-3) false 1 true)).
 Proof.
   split; [|split].
   - split; vm_compute; intuition discriminate.
@@ -24,11 +25,11 @@ Proof.
   - intros [H _]. vm_compute in H. discriminate.
 Qed.
 
-(* (-1, +inf) * (-1, 1) keeps the finite upper candidate's bits: the result is bounded above
-   (in the C++ code by whatever value the dirty temporary holds; here by 0). *)
-Lemma mul_refuted_witness_unbounded :
+(* old code: (-1, +inf) * (-1, 1) kept the finite upper candidate's bits: the result was bounded above
+   (in the C++ code by whatever value the dirty temporary held; here by 0). *)
+Lemma mul_pre_ed6ee8d_refuted_witness_unbounded :
   mem QC true 5 (upper_unbounded (-1) true) /\ mem QC true (1 # 2) (fin (-1) true 1 true) /\
-  ~ mem QC true (5 * (1 # 2)) (mul_assign QC true z0 (upper_unbounded (-1) true) (fin (-1) true 1 true)).
+  ~ mem QC true (5 * (1 # 2)) (mul_assign_pre_ed6ee8d QC true z0 (upper_unbounded (-1) true) (fin (-1) true 1 true)).
 Proof.
   split; [|split].
   - split; vm_compute; intuition discriminate.
@@ -41,18 +42,18 @@ Variable C : Carrier.
 Variable so : bool.
 
 Lemma pick_agree cond (a b : bnd C) :
-  cond && negb (same_flags C a b) = false -> pick C false cond a b = pick C true cond a b.
+  cond && negb (same_flags C a b) = false -> pick C true cond a b = pick C false cond a b.
 Proof.
   unfold pick, same_flags, set_val. destruct cond; cbn [andb]; auto.
   destruct a as [va sa oa], b as [vb sb ob]. cbn [bv bsp bop].
   destruct sa, sb, oa, ob; cbn; intros H; try discriminate; reflexivity.
 Qed.
 
-Theorem mul_agrees_unless_flag_loss z x y :
+Theorem mul_pre_ed6ee8d_agrees_unless_flag_loss z x y :
   snd (mul_diag C so z x y) = (false, false) ->
-  mul_assign C so z x y = mul_assign_fixed C so z x y.
+  mul_assign_pre_ed6ee8d C so z x y = mul_assign C so z x y.
 Proof.
-  unfold mul_assign, mul_assign_fixed, mul_assign_gen, mul_diag, mul_ladder.
+  unfold mul_assign, mul_assign_pre_ed6ee8d, mul_assign_gen, mul_diag, mul_ladder.
   destruct (check_empty_arg C so x || check_empty_arg C so y); auto.
   destruct (negb (infinity_sign C x =? 0)%Z); auto.
   destruct (negb (infinity_sign C y =? 0)%Z); auto.
